@@ -17,7 +17,11 @@ from .core import Check, run_tlc, tla
 LEVEL = "model_checking"
 
 OUTCOME = {"C09.rerun_failed": "C10.match_raised", "C09.diff_missed": "C10.difference_accepted"}
-LAYOUT = {"embedded": ("acme.client", None), "sibling": ("acme.api.client", "acme.api.core"), "toplevel": ("client", "sharedcore")}
+LAYOUT = {"embedded": ("acme.client", None), "sibling": ("acme.api.client", "acme.api.core"), "toplevel": ("client", "sharedcore"),
+          # concrete variants of the model's external-core layouts with PREFIX-related package names (the core's name is a string prefix
+          # of the client's, and the other way round)
+          "toplevel:core_prefixes_client": ("acme_billing", "acme"), "toplevel:client_prefixes_core": ("acme", "acme_core"),
+          "sibling:core_prefixes_client": ("shop.api_client", "shop.api")}
 
 
 def model_behaviours(chk: Check, existing, cores, cwds, pps) -> list[dict]:
@@ -46,7 +50,7 @@ def run_real(chk: Check, behaviours: list[dict], label: str, spec: dict | None =
     jobs = []
     for i, b in enumerate(behaviours):
         sc = b["sc"]
-        pkg, corep = LAYOUT[sc["core"]]
+        pkg, corep = LAYOUT[b.get("layout") or sc["core"]]
         job = {"id": f"{label}{i}", "base": str(base), "spec": b.get("spec") or spec, "pkg": pkg, "core": corep, "existing": b.get("variant") or sc["existing"], "force": sc["force"], "pp": sc["pp"], "cwd": sc["cwd"], "fault": sc["fault"]}
         if b.get("spec_old"):
             job["spec_old"] = b["spec_old"]
@@ -54,6 +58,8 @@ def run_real(chk: Check, behaviours: list[dict], label: str, spec: dict | None =
             job["docname"] = b["docname"]
         if b.get("tmpdir"):
             job["tmpdir"] = b["tmpdir"]
+        if b.get("layout"):
+            job["layout"] = b["layout"]
         jobs.append(job)
     res = core.parallel_py(chk.scratch, "harness.w_genrun", jobs, timeout=1500)
     traces = []
@@ -114,9 +120,11 @@ def judge(chk: Check, traces: list[dict], label: str, clauses: tuple[str, ...], 
                 loc["big"] = True
             if t["_job"].get("tmpdir"):
                 loc["tmpdir"] = t["_job"]["tmpdir"]
+            if t["_job"].get("layout"):
+                loc["layout"] = t["_job"]["layout"]
             if t["_job"].get("docname"):
                 loc["doc"] = t["_job"]["docname"]   # a catalogue document (one feature), not the default document of the tree variants
-            chk.fail(f["clause"], loc, {"sc": t["sc"], "variant": t["_job"]["existing"], "big": bool(t.get("_big")), "docname": t["_job"].get("docname", ""), "tmpdir": t["_job"].get("tmpdir", "")}, json.dumps(examples)[:400] + " err=" + t["_raw"].get("err", "")[:120])
+            chk.fail(f["clause"], loc, {"sc": t["sc"], "variant": t["_job"]["existing"], "big": bool(t.get("_big")), "docname": t["_job"].get("docname", ""), "tmpdir": t["_job"].get("tmpdir", ""), "layout": t["_job"].get("layout", "")}, json.dumps(examples)[:400] + " err=" + t["_raw"].get("err", "")[:120])
     if nd > 3:
         chk.note_drift(f"{nd} runs in total whose result differs from the model's")
     t = traces[len(traces) // 2]
@@ -156,6 +164,12 @@ def run(chk: Check) -> None:
             # an up-to-date tree whose top-level ancestor package lost its marker (a namespace package the user keeps that way):
             # nothing the comparison looks at differs
             extra.append(dict(b, variant="missing:ancestor_init"))
+    # prefix-related package names for the external-core layouts (every non-force behaviour over an existing tree, and the plain writes)
+    for b in list(beh):
+        sc = b["sc"]
+        if sc["fault"] == "none" and not sc["pp"] and sc["cwd"] == "elsewhere" and sc["core"] in ("toplevel", "sibling"):
+            for lay in [k for k in LAYOUT if k.startswith(sc["core"] + ":")]:
+                extra.append(dict(b, layout=lay))
     # the ENVIRONMENT of the run: every non-force behaviour over an existing tree once more with the temporary directory below a
     # dot-directory and once with a blank / non-ASCII path (the comparison tree lives there)
     for b in list(beh):
@@ -193,6 +207,8 @@ def replay(chk: Check, path: str) -> None:
         b["variant"] = rec["scenario"]["variant"]
     if rec["scenario"].get("tmpdir"):
         b["tmpdir"] = rec["scenario"]["tmpdir"]
+    if rec["scenario"].get("layout"):
+        b["layout"] = rec["scenario"]["layout"]
     if rec["scenario"].get("docname"):
         b["docname"] = rec["scenario"]["docname"]
         b["spec"] = features.build([b["docname"]])
